@@ -501,4 +501,55 @@ def run(ctx, prefix="C03", set_explanation=True):
                       "the win flag is not (false at construction, true exactly for winner-set members)" if not ok5 else
                       "winner_len does not add exactly 1 for every flagged player over all players",
                       fn=which.path, file=which.file, line=which.line)
+    # ---- rule 6 ---------------------------------------------------------------------------
+    rule = prefix + ".player-record"
+    ctx.rule(rule, "each player record stores the player's own hole cards, the whole board and the hand evaluated from them; "
+                   "cards() returns those seven cards, each once")
+    fields = F.adts[PLAYER]["variants"][0]["fields"]
+    k_pair = [i for i, f in enumerate(fields) if f["ty"] == CARD_PAIR]
+    k_board = [i for i, f in enumerate(fields) if f["ty"].startswith("[card::card::Card; 5]")]
+    k_hand = [i for i, f in enumerate(fields) if f["ty"] == MADE_HAND]
+    if len(k_pair) != 1 or len(k_board) != 1 or len(k_hand) != 1:
+        raise U(rule, "ShowdownPlayer is not (pair, board, hand, flag)", fn)
+    k_pair, k_board, k_hand = k_pair[0], k_board[0], k_hand[0]
+    recs = [pr.rvalue(s_["rv"]) for bi in fn.cfg.reachable for s_ in fn.blocks[bi]["stmts"]
+            if s_["k"] == "assign" and "agg" in s_["rv"] and isinstance(s_["rv"]["agg"], dict) and s_["rv"]["agg"].get("adt") == PLAYER]
+    probs6 = []
+    if len(recs) != 1:
+        probs6.append(f"{len(recs)} ShowdownPlayer constructions in Showdown::new")
+    else:
+        a = recs[0]
+        if P.strip(a[2][k_pair]) != P.strip(player):
+            probs6.append("the record's hole cards are not the player's own pair")
+        bt = P.strip(a[2][k_board])
+        board_ok = bt == ("param", 2) or (bt[0] == "agg" and bt[1] == "array" and len(bt[2]) == 5 and
+                                          [card_class(o) for o in bt[2]] == [("board", k_) for k_ in range(5)])
+        if not board_ok:
+            probs6.append("the record's board is not the given board in order")
+        if P.strip(a[2][k_hand]) != P.strip(made):
+            probs6.append("the record's hand is not the evaluation of this player's seven cards")
+    cf = F.fns.get(PLAYER + "::cards")
+    if cf is not None:
+        ctx.analysed([cf])
+        ct_ = P.strip(P.Prov(cf).local(0))
+        got = []
+        if ct_[0] == "agg" and ct_[1] == "array" and len(ct_[2]) == 7 and not cf.cfg.has_loops():
+            for o in ct_[2]:
+                o = P.strip(o)
+                if o[0] in ("index", "cindex") and P.strip(o[1]) == ("field", ("deref", ("param", 1)), k_board):
+                    got.append(("board", P.const_int(o[2]) if o[0] == "index" else o[2]))
+                elif o[0] == "call" and o[1] == PAIR_INDEX and P.strip(o[2][0]) == ("field", ("deref", ("param", 1)), k_pair):
+                    got.append(("hole", P.const_int(o[2][1])))
+                elif o[0] == "field" and P.strip(o[1]) == ("field", ("deref", ("param", 1)), k_pair):
+                    got.append(("hole", o[2]))
+                else:
+                    got.append(("other", P.show_key(o)))
+        want7 = sorted([("hole", 0), ("hole", 1)] + [("board", k_) for k_ in range(5)])
+        if sorted(got, key=str) != sorted(want7, key=str):
+            probs6.append(f"cards() returns {got}: not the record's five board cards and two hole cards, each once")
+    if probs6:
+        ctx.violation(rule, f"{fn.path}|player-record|{probs6[0].split(':')[0].replace(' ', '-')[:50]}", "; ".join(probs6),
+                      fn=fn.path, file=fn.file, line=fn.line, construct="ShowdownPlayer record / cards()")
+    else:
+        ctx.ok(rule, {"record": "(player pair, board, evaluated hand, false)", "cards()": "board[0..4] + hole[0..1]"}, sample=True)
     ctx.assume("MadeHand index order is hand strength (C01); players' hole cards distinct from each other (precondition)")
